@@ -306,6 +306,10 @@ func (e *SpecEnv) sortOfTypeString(s string) (*Sort, error) {
 	}
 	t, err := e.resolveType(s)
 	if err != nil {
+		if strings.HasPrefix(s, "*") || strings.HasPrefix(s, "chan ") {
+			// a reference type that cannot be named from here: references are integers
+			return IntSort, nil
+		}
 		return nil, err
 	}
 	if sc := scalarSort(t); sc != nil {
@@ -673,7 +677,7 @@ func (e *SpecEnv) evalIndex(x *SX) (*SV, error) {
 			return nil, fmt.Errorf("indexing a non-map ghost value")
 		}
 		i = e.coerce(i, ghostType{gt.S.Idx})
-		return &SV{V: Select(e.value(b).(*Term), e.value(i).(*Term)), T: ghostType{gt.S.Elem}}, nil
+		return &SV{V: Select(e.value(b).(*Term), e.refKey(i)), T: ghostType{gt.S.Elem}}, nil
 	}
 	st := e.stateOf(b)
 	switch u := under(b.T).(type) {
@@ -705,6 +709,19 @@ func (e *SpecEnv) evalIndex(x *SX) (*SV, error) {
 		}
 	}
 	return nil, fmt.Errorf("cannot index %s (type %v)", x.A[0], b.T)
+}
+
+// refKey turns a value used as the key of a ghost map into a term (pointers and interfaces by identity).
+func (e *SpecEnv) refKey(i *SV) *Term {
+	switch v := e.value(i).(type) {
+	case *Term:
+		return v
+	case *PtrV:
+		return e.stateOf(i).ptrTerm(v)
+	case *IfaceV:
+		return v.Data
+	}
+	panic("ghost map key of unsupported shape")
 }
 
 func (e *SpecEnv) evalSlice(x *SX) (*SV, error) {
@@ -826,6 +843,23 @@ func (e *SpecEnv) evalCall(x *SX) (*SV, error) {
 				return nil, err
 			}
 			return &SV{V: e.isNil(v), T: types.Typ[types.Bool]}, nil
+		case "hasPrefix":
+			a, err := e.eval(args[0])
+			if err != nil {
+				return nil, err
+			}
+			b, err := e.eval(args[1])
+			if err != nil {
+				return nil, err
+			}
+			return &SV{V: e.vc.hasPrefix(e.value(a).(*Term), e.value(b).(*Term)), T: types.Typ[types.Bool]}, nil
+		case "ref":
+			// ref(x): the identity (reference) of a pointer or interface value, as used to key ghost maps
+			v, err := e.eval(args[0])
+			if err != nil {
+				return nil, err
+			}
+			return &SV{V: e.refKey(v), T: ghostType{IntSort}}, nil
 		case "sent":
 			// sent(ch): number of messages placed on channel ch so far (ghost)
 			v, err := e.eval(args[0])
@@ -899,11 +933,15 @@ func (e *SpecEnv) applySpecFunc(sf *SpecFunc, args []*SX) (*SV, error) {
 		}
 		pt, err := fenv.paramType(sf.PTypes[i])
 		if err != nil {
-			return nil, err
-		}
-		v = e.coerce(v, pt)
-		if v.T == nil {
-			v = &SV{V: v.V, T: pt}
+			if sf.Body != nil {
+				return nil, err
+			}
+			// uninterpreted function over a type that cannot be named from this package: the argument is used as is
+		} else {
+			v = e.coerce(v, pt)
+			if v.T == nil {
+				v = &SV{V: v.V, T: pt}
+			}
 		}
 		// freeze place-valued locals
 		fenv.vars[sf.Params[i]] = v
@@ -917,11 +955,16 @@ func (e *SpecEnv) applySpecFunc(sf *SpecFunc, args []*SX) (*SV, error) {
 		}
 		var ts []*Term
 		for _, v := range argVals {
-			t, ok := e.value(v).(*Term)
-			if !ok {
-				return nil, fmt.Errorf("uninterpreted spec func %s needs scalar arguments", sf.Name)
+			switch t := e.value(v).(type) {
+			case *Term:
+				ts = append(ts, t)
+			case *IfaceV:
+				ts = append(ts, t.Tag, t.Data)
+			case *PtrV:
+				ts = append(ts, e.stateOf(v).ptrTerm(t))
+			default:
+				return nil, fmt.Errorf("uninterpreted spec func %s needs scalar, pointer or interface arguments", sf.Name)
 			}
-			ts = append(ts, t)
 		}
 		rt, _ := fenv.paramType(sf.RType)
 		return &SV{V: App("spec:"+sf.Name, rs, ts...), T: rt}, nil
@@ -957,6 +1000,55 @@ func (e *SpecEnv) evalLoc(x *SX) (p *PtrV, all bool, err error) {
 			err = fmt.Errorf("%v", r)
 		}
 	}()
+	// ghost map element or whole ghost map
+	if x.K == "idx" && x.A[0].K == "id" {
+		if g := e.vc.prog.ghost(x.A[0].Name); g != nil {
+			srt, err := e.resolveGhostSort(g)
+			if err != nil {
+				return nil, false, err
+			}
+			e.vc.reg.get("ghost:"+g.Name, 0, srt, nil)
+			if x.A[1].K == "id" && x.A[1].Name == "#all" {
+				return &PtrV{Kind: PGlobal, Key: "ghost:" + g.Name, Elem: ghostType{srt}}, true, nil
+			}
+			k, err := e.eval(x.A[1])
+			if err != nil {
+				return nil, false, err
+			}
+			k = e.coerce(k, ghostType{srt.Idx})
+			return &PtrV{Kind: PGlobal, Key: "ghost:" + g.Name, Idx: e.refKey(k), Elem: ghostType{srt.Elem}}, false, nil
+		}
+	}
+	if x.K == "id" {
+		if g := e.vc.prog.ghost(x.Name); g != nil {
+			srt, err := e.resolveGhostSort(g)
+			if err != nil {
+				return nil, false, err
+			}
+			e.vc.reg.get("ghost:"+g.Name, 0, srt, nil)
+			return &PtrV{Kind: PGlobal, Key: "ghost:" + g.Name, Elem: ghostType{srt}}, true, nil
+		}
+	}
+	// *x where x is an interface holding a pointer: the pointee
+	if x.K == "un" && x.Op == "*" {
+		if v, err := e.eval(x.A[0]); err == nil && v.T != nil {
+			if _, isIface := under(v.T).(*types.Interface); isIface {
+				if iv, ok := e.value(v).(*IfaceV); ok {
+					if bt, ok := e.vc.boxedType[iv.Data]; ok {
+						if pt, ok := under(bt).(*types.Pointer); ok {
+							if bv, ok := e.vc.boxed[iv.Data]; ok {
+								return asPtr(bv, pt.Elem()), false, nil
+							}
+							return asPtr(iv.Data, pt.Elem()), false, nil
+						}
+						// not a pointer: nothing can be written through it
+						return &PtrV{Kind: PCell, Cell: -1, Elem: bt}, false, nil
+					}
+				}
+				return &PtrV{Kind: PHeap, Key: "*"}, true, nil
+			}
+		}
+	}
 	// x[#all] or x[#all].f
 	if x.K == "idx" && x.A[1].K == "id" && x.A[1].Name == "#all" {
 		b, err := e.eval(x.A[0])
